@@ -25,8 +25,8 @@ ASSUME = ["the injected flag store is indistinguishable from Ctrl-C / an interru
           "baseline = the uninterrupted run of the same binary (a metamorphic oracle, not a reference semantics)"]
 BATCH = 1
 FLOOR = {"quick": 20, "thorough": 40}
-BUDGET = {"quick": 45, "thorough": 840}
-NCHUNK = 8
+BUDGET = {"quick": 35, "thorough": 840}
+NCHUNK = 16
 TECHNIQUE = "fault enumeration: deterministic interrupt injection at every interpreter step, resumed, compared with the uninterrupted run"
 
 
